@@ -55,6 +55,7 @@ def _case(draw, max_ops):
             ops.append({'op': k})
     return {'spec': draw(gens.model_spec(max_layers=3, max_dim=5, max_out=4)), 'method': method, 'prediv': prediv,
             'in_hook': in_hook, 'accum': accum, 'N': draw(st.integers(1, 4)), 'style': draw(gens.style_strategy()),
+            'zero_to_none': draw(st.booleans()),
             'hp': hp, 'scheduler': scheduler, 'program': ops}
 
 
